@@ -66,9 +66,16 @@ func buildC11(tier string, seed int64) *Family {
 			add(a + " | " + b)
 		}
 	}
+	// a parenthesised union with a predicate: still the union's nodes, each once
+	for _, t := range []string{"(a | */a)[true()]", "(//a | //b/a)[not(@a)]", "(a | */a)[a]", "(//a | //*/b)[. = '1']", "(* | */*)[true()]", "(//b/a | //a)[true()]", "(a | b/a | */*/a)[not(b)]"} {
+		in := nodesetInst(t, cfg)
+		in.Params["nodup"] = "1"
+		insts = append(insts, in)
+	}
 	// unions over prefixed and unprefixed names (documents with symbolic prefixes)
 	pcfg := docCfg{N: cfg.N, A: 0, Names: "a,b", Pool: ","}
-	for _, t := range []string{"p:a | a", "a | p:a", "//p:a | //a", "//a | //p:b", "*/(p:a, a)", "p:a | p:b | b", "//p:a | //p:a", "p:a/a | a/p:a"} {
+	for _, t := range []string{"p:a | a", "a | p:a", "//p:a | //a", "//a | //p:b", "*/(p:a, a)", "p:a | p:b | b", "//p:a | //p:a", "p:a/a | a/p:a",
+		"p:a | *", "//p:a | //*", "p:b | node()", "*/(p:a, *)", "p:a/* | a"} {
 		in := nodesetInst(t, pcfg)
 		in.ID += " prefixed"
 		in.Params["prefixes"] = ",p"
